@@ -8,7 +8,8 @@ namespace Claripy.Solver
 
 variable {R : Con → Prop} {RE : Exp → Prop} {E : Env} {G : St → Prop} {U : List Con}
 
-theorem full_extremum_spec (hE : OracleExact E) (hR : Reg R E) (hC : EvalComplete RE E) (hRE : ExpReg RE)
+theorem full_extremum_spec (hE : OracleExact E) (hR : Reg R E) (hZ : ZidFaithful R) (hC : EvalComplete RE E)
+    (hRE : ExpReg RE)
     {self : Ops} (hmh : self.modelHook = mcHook) (isMax : Bool) (e : Exp) (he : RE e) (hc : e.conc = none)
     (extra : List Con) (signed : Bool)
     (hsat : SatSpec R RE E G U extra (self.satisfiable extra))
@@ -72,12 +73,13 @@ theorem full_extremum_spec (hE : OracleExact E) (hR : Reg R E) (hC : EvalComplet
           have hv1 : v1 < 2 ^ e.bits := by obtain ⟨a, _, hv⟩ := hf1; rw [← hv]; exact hwf.2 a
           have hne01 : v0 ≠ v1 := by
             intro heq; subst heq; simp at hnd
-          have hgs := getSolver_spec sB hinvB.base.core
+          have hgsT := getSolverG_spec hZ sB hinvB.base.core hinvB.base.dinv.consR hinvB.base.areg
           rcases hg : getSolver sB with ⟨resC, sC⟩
-          rw [hg] at hgs
+          rw [hg] at hgsT
           cases resC with
-          | error err => exact absurd hgs id
+          | error err => exact absurd hgsT id
           | ok r =>
+            have hgs := hgsT.toGotSolver
             simp only
             -- the narrowed query
             have hZ : ∀ a, SatBy ((objAt sC r).asserted ++
@@ -105,11 +107,11 @@ theorem full_extremum_spec (hE : OracleExact E) (hR : Reg R E) (hC : EvalComplet
             cases resD with
             | error err =>
               obtain ⟨hg', hst, hfr⟩ := hsp
-              obtain ⟨h3, hk3⟩ := si_after_query hinvB hgs hst.toObjStep hfr (hst.fe (hookP_start hinvB hgs))
+              obtain ⟨h3, hk3⟩ := si_after_query hinvB hgsT hst.toObjStep hfr (hst.fe (hookP_start hinvB hgs))
               exact ⟨Or.inr hg', h3, hkAB.trans hk3⟩
             | ok i =>
               obtain ⟨⟨hlo, hhi, hex, hall⟩, hst, hfr⟩ := hsp
-              obtain ⟨h3, hk3⟩ := si_after_query hinvB hgs hst.toObjStep hfr (hst.fe (hookP_start hinvB hgs))
+              obtain ⟨h3, hk3⟩ := si_after_query hinvB hgsT hst.toObjStep hfr (hst.fe (hookP_start hinvB hgs))
               have hiopt := hopt i hlo hhi hex hall
               refine ⟨hiopt, fun hvars => ?_, h3, hkAB.trans hk3⟩
               have hvarsD : ∀ x ∈ e.vars, x ∈ sD.fe.variables := fun x hx => (hkAB.trans hk3).vars x (hvars x hx)
